@@ -317,6 +317,9 @@ def rescan(ctx, lexpr):
         if g.kind == "closure" or not g.file.endswith("parse/mod.rs"):
             continue
         sb = [bi for bi, t in g.calls() if t["callee"].get("path", "").endswith("from_slice_custom")]
+        # ... or builds the sub-parser in place (`Parser { read: SliceRead::new(..), .. }`)
+        sb += [bi for bi, b in enumerate(g.blocks) if not b.get("cleanup") and any(
+            st["k"] == "assign" and st["rv"]["k"] == "agg" and st["rv"].get("adt") == "parse::Parser" for st in b["stmts"])]
         sy = [bi for bi, t in g.calls() if t["callee"].get("path", "").endswith("Parser::<R>::parse_symbol")]
         if sb and sy:
             cands.append((g, sb))
